@@ -54,15 +54,27 @@ func c11Pool(t *rapid.T) []dxAttrs {
 			case 0:
 				v.OTC = b.OTC + 1 + uint32(j)
 			case 1:
-				v.Unknown = append(v.Unknown, dxUnk{Optional: true, Type: uint8(210 + j), Value: []byte{byte(j)}})
+				// unknown attributes differing in the type code or only in the value
+				v.Unknown = append(v.Unknown, dxUnk{Optional: true, Type: uint8(210 + rapid.IntRange(0, 1).Draw(t, "unktype")), Value: []byte{byte(rapid.IntRange(0, 1).Draw(t, "unkval"))}})
 			case 2:
-				v.HasAggr, v.AggrASN, v.AggrAddr = true, uint16(64700+j), 0x0a000001
+				// AGGREGATOR variants of one base may differ in the ASN only, in the address only, or in both
+				v.HasAggr = true
+				v.AggrASN = uint16(64700 + rapid.IntRange(0, 1).Draw(t, "aggrasn"))
+				v.AggrAddr = 0x0a000001 + uint32(rapid.IntRange(0, 1).Draw(t, "aggraddr"))
 			case 3:
 				v.Atomic = !b.Atomic
 			default:
 				v.MED = b.MED + 1 + uint32(j) // an ordinary difference the hash always covered
 			}
-			pool = append(pool, v)
+			dup := false
+			for _, o := range pool {
+				if o.canon(dxMask{}) == v.canon(dxMask{}) {
+					dup = true
+				}
+			}
+			if !dup {
+				pool = append(pool, v)
+			}
 		}
 	}
 	return pool
